@@ -34,6 +34,13 @@ func OpFrame(opid uint64, payload []byte) []byte {
 	return Frame(append(Headers([]Pair{{"_opid", strconv.FormatUint(opid, 10)}}), payload...))
 }
 
+// OpFrameDecoy is a framed message for op id opid whose first header is an ordinary user header "a" whose VALUE happens to
+// contain the marshalled pair (_opid, decoy): only the frame's own _opid header says whom it is for.
+func OpFrameDecoy(opid, decoy uint64, payload []byte) []byte {
+	inner := Headers([]Pair{{"_opid", strconv.FormatUint(decoy, 10)}})[5:]
+	return Frame(append(Headers([]Pair{{"a", "x" + string(inner) + "y"}, {"_opid", strconv.FormatUint(opid, 10)}}), payload...))
+}
+
 // Parse reads an unframed message: returns pairs in wire order and the payload.
 func Parse(b []byte) ([]Pair, []byte, error) {
 	if len(b) < 5 {
